@@ -253,8 +253,12 @@ class Tables:
                 elif isinstance(v, tuple) and len(v) == 2 and isinstance(v[1], dict):
                     g, body = v
                     if isinstance(g, tuple):
-                        state["k"] += 1
-                        total = total + Poly.sym(f"k{state['k']}") * rec(body, parent_sym)
+                        # presence flags are numbered by order of first use of each *distinct* condition (field, value)
+                        ck = ("opt", repr(g))
+                        if ck not in names:
+                            state["k"] += 1
+                            names[ck] = f"k{state['k']}"
+                        total = total + Poly.sym(names[ck]) * rec(body, parent_sym)
                     elif isinstance(g, int) and not isinstance(g, bool):
                         total = total + g * rec(body, parent_sym)
                     elif isinstance(g, str):
